@@ -935,8 +935,9 @@ class BosonicModes:
         reweights = np.exp(-0.5 * reweights_exp_arg) / (
             np.sqrt(np.linalg.det(2 * np.pi * (C + covmat)))
         )
-        self.weights *= reweights
-        self.weights /= np.sum(self.weights)
+        # not in place: the weights may be stored as float64 while reweights is complex
+        self.weights = self.weights * reweights
+        self.weights = self.weights / np.sum(self.weights)
 
         self.means = self.means[abs(self.weights) > 0]
         self.covs = self.covs[abs(self.weights) > 0]
